@@ -87,16 +87,19 @@ def tlc_cases(chk, tier):
     out = []
     maxlen = 4 if tier == "quick" else 5
     cfg = f"MC_FmtStrings_{tier}"
-    # TLC checks every string; the replay keeps every string <= 4 and (thorough) a fixed quarter of the longer ones, so that
+    # TLC checks every string; the replay keeps every string <= 4 and (thorough) a fixed half of the longer ones, so that
     # the driver's memory stays bounded (4.5M records were 39 GB)
-    keep = (lambda tag, c: tag != "CASE" or len(c["chars"]) <= 4 or vlib.seeded_pick("".join(c["chars"]), 0, 4) == 0) if tier == "thorough" else None
+    keep = (lambda tag, c: tag != "CASE" or len(c["chars"]) <= 4 or vlib.seeded_pick("".join(c["chars"]), 0, 2) == 0) if tier == "thorough" else None
     r = vlib.run_tlc("MC_FmtStrings", cfg, workers=8, timeout=3000, xmx="8g", keep=keep)
     chk.notes["strings_emitted_by_tlc"] = r.emitted.get("CASE", 0)
     chk.add_tlc(r, f"all strings <= {maxlen}")
     if not r.ok:
         raise SpecViolation("MC_FmtStrings", r)
     out += r.cases
-    r2 = vlib.run_tlc("MC_FmtDeriv", f"MC_FmtDeriv_{tier}", workers=8, timeout=3000, xmx="8g")
+    # (the thorough derivation space is ~4.2M literals: TLC checks them all, the replay takes a fixed twelfth)
+    keep2 = (lambda tag, c: tag != "CASE" or vlib.seeded_pick("".join(c["chars"]), 1, 12) == 0) if tier == "thorough" else None
+    r2 = vlib.run_tlc("MC_FmtDeriv", f"MC_FmtDeriv_{tier}", workers=8, timeout=3000, xmx="8g", keep=keep2)
+    chk.notes["derivations_emitted_by_tlc"] = r2.emitted.get("CASE", 0)
     chk.add_tlc(r2, "grammar derivations")
     if not r2.ok:
         raise SpecViolation("MC_FmtDeriv", r2)
